@@ -1,11 +1,13 @@
 """pm_oof_validate.py <seed> <count> [show] [mode]: the real layout against the `pmoof` model on generated documents."""
 import collections
+import os
 import pathlib
 import random
 import subprocess
 import sys
 
 sys.path.insert(0, str(pathlib.Path(__file__).resolve().parents[1]))
+sys.path.insert(0, os.environ.get('VERIF_REPO', '/repo'))     # a scratch copy with a mutation, for self-tests
 from harness import docs, pm_oof, pm_oof_corr  # noqa: E402
 
 docs.quiet()
@@ -40,6 +42,18 @@ for doc, line, real, model in zip(documents, lines, reals, out):
                 print('REAL ', real[-600:])
                 print('MODEL', model[-600:])
 print('bad', bad, 'of', count)
+# the oracles on the implementation's own output (what they flag on the unchanged tree is a finding or noise)
+flagged = collections.Counter()
+for doc, real in zip(documents, reals):
+    for name, oracle in (('fit', pm_oof_corr.fit_violation), ('progress', pm_oof_corr.progress_violation),
+                         ('conservation', pm_oof_corr.conservation_violation)):
+        what = oracle(doc, real)
+        if what:
+            flagged[name] += 1
+            if flagged[name] <= (2 if name != 'conservation' else 0):
+                print('ORACLE', name, what)
+                print('  LINE', pm_oof.doc_line(doc))
+print('oracles flag on the real outputs:', dict(flagged))
 print(collections.Counter(r[:16] if r.startswith('err') else 'pages' for r in reals).most_common(6))
 print('pages', sorted(collections.Counter(r.count('(page ') for r in reals).items()))
 print('cut out-of-flow', sum('(bk (' in r for r in reals), 'ph', sum('(ph ' in r for r in reals))
